@@ -36,10 +36,56 @@ def compile_program(text):
     return ('accept', [vmwire.enc_instr_fixed(i) for i in parser.get_program()])
 
 
+def _negated(a):
+    """wire form of the negated numeric literal, or None"""
+    if a.startswith('i:'):
+        try:
+            return 'i:{}'.format(-int(a[2:]))
+        except ValueError:
+            return None
+    if a.startswith('f:'):
+        n, _, d = a[2:].partition('/')
+        try:
+            return 'f:{}/{}'.format(-int(n), d)
+        except ValueError:
+            return None
+    return None
+
+
+def fold_negation(code):
+    """PUSHQ n; PUSHQ -1; OP mul == PUSHQ -n for a numeric literal n (C16_negate_int,
+    C16_negate_num): a signed literal is ONE constant bare and a product in braces"""
+    out, index, i = [], {}, 0
+    while i < len(code):
+        index[i] = len(out)
+        if i + 2 < len(code) and code[i].startswith('PUSHQ|') and code[i + 1] == 'PUSHQ|i:-1|' and \
+                code[i + 2].startswith('OP|') and code[i + 2].split('|')[1].endswith('MUL'):
+            neg = _negated(code[i].split('|')[1])
+            if neg is not None:
+                index[i + 1] = index[i + 2] = len(out)
+                out.append(('PUSHQ|{}|'.format(neg), i))
+                i += 3
+                continue
+        out.append((code[i], i))
+        i += 1
+    index[len(code)] = len(out)
+    res = []
+    for k, (ins, old) in enumerate(out):
+        if ins.startswith('JUMP|') and ins.split('|')[2].startswith('i:'):
+            parts = ins.split('|')
+            target = old + int(parts[2][2:])
+            if target in index:
+                parts[2] = 'i:{}'.format(index[target] - k)
+                ins = '|'.join(parts)
+        res.append(ins)
+    return res
+
+
 def peephole(code):
     """PUSHQ v; POP d == MOVEQ v d and PUSH s; POP d == MOVE s d (proved VM lemmas,
     Props/C16.lean): normalise before comparing a braced single value with the bare one.
     Relative jump offsets are re-expressed over the shortened code."""
+    code = fold_negation(code)
     out = []
     new_index = {}
     i = 0
@@ -135,8 +181,8 @@ def with_braces(rng, stmts, p=0.6):
     def rv(x):
         if x is None:
             return x
-        if x[0] in ('num', 'var', 'reg', 'macro', 'str') and rng.random() < p \
-                and not (x[0] == 'num' and x[1] < 0):
+        if x[0] in ('num', 'var', 'reg', 'macro', 'str') and rng.random() < p:
+            # (a negative literal too: `{-5}` is a product, `-5` one constant — fold_negation)
             return ('expr', x)
         if x[0] == 'call':
             return ('call', x[1], [rv(a) for a in x[2]]) + tuple(x[3:])
@@ -373,6 +419,13 @@ def main():
         lex_texts.append(bracketed)
     # ---- 2c. curly braces round a single value in every position the grammar calls a value
     value_pairs = [
+        # a signed literal wherever a value may stand, bare and in braces
+        ('print -5', 'print {-5}'), ('println -2.5', 'println {-2.5}'), ('hue -5 assign x -7 print x', 'hue {-5} assign x {-7} print x'),
+        ('define f begin return -5 end print [f]', 'define f begin return {-5} end print [f]'),
+        ('repeat -2 print 1', 'repeat {-2} print 1'), ('repeat 4 with h cycle -90 print h', 'repeat 4 with h cycle {-90} print h'),
+        ('repeat with i from -2 to -4 print i', 'repeat with i from {-2} to {-4} print i'),
+        ('define g with a b begin print a print b end g -1 -2', 'define g with a b begin print a print b end g {-1} {-2}'),
+        ('printf "{} {}" -1 -2.5', 'printf "{} {}" {-1} {-2.5}'), ('if -1 print 1', 'if {-1} print 1'),
         ('repeat in "a" and "b" as l print l', 'repeat in {"a"} and {"b"} as l print l'),
         ('repeat in "a" and "b" and "c" as l print l', 'repeat in "a" and {"b"} and "c" as l print l'),
         ('assign g "G" repeat in group g as l print l', 'assign g "G" repeat in group {g} as l print l'),
